@@ -15,6 +15,7 @@ class ClassDecl:
     supers: List[str] = field(default_factory=list)
     props: Dict[str, Any] = field(default_factory=dict)       # @property name -> (relpath, qualname): inlined real code
     inline: Dict[str, Any] = field(default_factory=dict)      # small helper method -> (relpath, qualname): inlined
+    truth: Optional[str] = None                               # expression over `self` giving bool(obj) (models __bool__)
     ctor: Optional[Any] = None                                # (relpath, qualname of __init__): constructor inlined
     py_names: List[str] = field(default_factory=list)         # dotted names under which the class is called
 
@@ -52,6 +53,8 @@ class FnContract:
     native: Optional[dict] = None  # replay scaffolding: {"setup": "<python source>"}
     verify: bool = True            # False: contract is assumed (trusted), listed as such
     doc: str = ""
+    source: Optional[str] = None      # driver glue (one or two lines) written in /verif; the real bodies it calls are inlined from /repo
+    engine: str = "int"              # "fp": ints as 64-bit vectors, floats as binary64 (QF_FPBV)
     param_values: Dict[str, Any] = field(default_factory=dict)   # concrete live objects bound to parameters (finite instantiation)
 
     def all_requires(self, reg) -> List[str]:
@@ -83,6 +86,9 @@ class SpecFn:
                 zargs.append(eng.as_int(a))
             elif k == "bool":
                 zargs.append(eng.truth(a))
+            elif a.k == "obj":
+                from .values import opaque_sort
+                zargs.append(z3.Const("obj_" + a.t, opaque_sort("Obj")))
             else:
                 zargs.append(a.t)
         r = self.z3(*zargs)
